@@ -1187,6 +1187,14 @@ impl TypeChecker {
             ident = tmp_ident;
         }
 
+        // A leading `pkg` is absolute: it always refers to the root of the
+        // package, even if a module that happens to be called `pkg` is in
+        // scope.
+        if recurse && ident.node == "pkg".into() {
+            scope = ScopeRef::GLOBAL;
+            recurse = false;
+        }
+
         // Keep checking modules until we find something that isn't a module
         // The current implementation is a bit strange because it uses
         // resolve_name, but after the first identifier, it should actually
